@@ -250,7 +250,85 @@ macro_rules! layout_type {
     }};
 }
 
+fn mem_available_gib() -> u64 {
+    std::fs::read_to_string("/proc/meminfo")
+        .ok()
+        .and_then(|m| {
+            m.lines()
+                .find(|l| l.starts_with("MemAvailable:"))
+                .and_then(|l| l.split_whitespace().nth(1).and_then(|kb| kb.parse::<u64>().ok()))
+        })
+        .map_or(0, |kb| kb / (1024 * 1024))
+}
+
+/// entries of exactly 128 KiB (5461 matcher columns): two indices of one bucket whose byte offsets are 4 GiB apart.
+/// The 8 GiB bucket is only reserved address space; one page per entry is touched by the vector's own initialisation
+/// (about 260 MiB resident). Indices are reserved by batches that report a length and yield nothing.
+fn huge_entry_case(opts: &Opts, rep: &mut Report) {
+    let strict_overcommit = std::fs::read_to_string("/proc/sys/vm/overcommit_memory").map_or(false, |s| s.trim() == "2");
+    if cfg!(miri) || std::env::var_os("ASAN_OPTIONS").is_some() || mem_available_gib() < 6 || strict_overcommit {
+        rep.count("layout.huge-entry-case-skipped");
+        return;
+    }
+    const COLS: u32 = 5461;
+    let vec: BoxcarVec<u32> = BoxcarVec::with_capacity(0, COLS);
+    let r = catch_unwind(AssertUnwindSafe(|| {
+        let vec = &vec;
+        let reserve = |n: usize| vec.extend(LenIter { inner: std::iter::empty::<u32>(), reported: n }, |_, _| {});
+        let mut problems = Vec::new();
+        reserve(65_509);
+        let low = vec.push(111, |_, c| c[0] = "low".into());
+        reserve(98_277 - 65_510);
+        let high = vec.push(222, |_, c| c[COLS as usize - 1] = "high".into());
+        if (low, high) != (65_509, 98_277) {
+            problems.push(format!("pushes landed at {low} and {high}"));
+        }
+        for (idx, value, col, text) in [(low, 111u32, 0usize, "low"), (high, 222, COLS as usize - 1, "high")] {
+            match vec.get(idx) {
+                Some(it) => {
+                    let expected: Utf32String = text.into();
+                    if *it.data != value || it.matcher_columns.len() != COLS as usize || it.matcher_columns[col] != expected {
+                        problems.push(format!("index {idx} holds {} / column {col} {:?}, pushed {value} / {text:?}", it.data, it.matcher_columns[col]));
+                    }
+                }
+                None => problems.push(format!("get({idx}) is None after its push returned")),
+            }
+        }
+        for idx in [low + 32_768 - 1, low + 1, high - 1] {
+            if vec.get(idx).is_some() {
+                problems.push(format!("get({idx}) returns an item although nothing was pushed there"));
+            }
+        }
+        problems
+    }));
+    rep.count("layout.huge-entry-cases");
+    let detail = |msg: String| jobj! {"problem" => msg, "case_id" => format!("{}:{}:huge-entry", opts.seed, opts.shard), "columns" => COLS as u64, "entry_bytes" => 131072u64};
+    if r.as_ref().map_or(true, |p| !p.is_empty()) {
+        // whatever went wrong may go wrong again (or worse) while the vector is torn down: leak it
+        std::mem::forget(vec);
+    }
+    match r {
+        Ok(problems) => {
+            for p in problems.into_iter().take(3) {
+                rep.violation("C08", "item-differs-far-inside-a-large-bucket", "entries 4 GiB apart in one bucket".into(), detail(p));
+            }
+        }
+        Err(_) => {
+            let msg = crate::refm::last_panic();
+            let loc = msg.rsplit(" @ ").next().unwrap_or("").to_owned();
+            if crate::refm::in_repository(&loc) {
+                rep.violation("C08", "panic", format!("panic@{loc}"), detail(msg));
+            } else {
+                rep.inconclusive(format!("monitor panicked outside the repository code: {msg}"));
+            }
+        }
+    }
+}
+
 pub fn run_layout(opts: &Opts, rep: &mut Report) {
+    if opts.shard == 0 && opts.replay.is_none() {
+        huge_entry_case(opts, rep);
+    }
     let range: Box<dyn Iterator<Item = u64>> = match opts.replay {
         Some(i) => Box::new(i..i + 1),
         None => Box::new(0..opts.cases),
